@@ -460,3 +460,38 @@ def protected_inside_context(cx, N):
         again = numpy.array(A.data).copy()
         cx.prove_eq("again/transformed", again, rep([S], inside), tol=1e-7)
     cx.prove_eq("again/restored", A._data, inside, tol=1e-7)
+
+
+@harness("C04", "apply_copy_inside_context",
+         quick=[dict(touched=True), dict(touched=False)], thorough=[dict(touched=t, N=n) for t in (True, False) for n in (2, 3)],
+         functions=FUNCS + ["quantarhei/qm/liouvillespace/superoperator.py:SuperOperator.apply"],
+         bound="N=2 (thorough 3): inside eigenbasis_of(H) a superoperator is applied to a density matrix with copy=True "
+               "(the density matrix already read inside the context, or not): the returned object is, after the "
+               "context, readable and equal to the site-basis action; the operands are restored",
+         out="")
+def apply_copy_inside_context(cx, touched, N=2):
+    import quantarhei as qr
+    m, objs, (H, w, S) = setup(cx, N, with_tensor=False)
+    ham, rho = objs["H"][0], objs["rho"][0]
+    rho0 = objs["rho"][1]
+    R0 = cx.cplx_array("R", (N, N, N, N))
+    with cx.concrete():
+        SO = qr.qm.SuperOperator(dim=N)
+    SO._data = R0.copy()
+    ref = numpy.tensordot(R0, rho0)
+    st0 = manager_state(m)
+    with qr.eigenbasis_of(ham):
+        if touched:
+            _ = rho.data
+        out = SO.apply(rho, copy=True)
+        cx.prove_eq("inside/result_rep", out.data, rep([S], ref), tol=1e-7)
+    try:
+        got = numpy.array(out.data).copy()
+    except Exception as e:      # noqa: BLE001
+        cx.fail("after/result_readable", "%s: %s" % (type(e).__name__, str(e)[:100]))
+        return
+    cx.prove_eq("after/result_is_site_basis_action", got, ref, tol=1e-7)
+    cx.prove_eq("after/operand_restored", rho._data, rho0, tol=1e-7)
+    cx.prove_eq("after/superoperator_restored", SO._data, R0, tol=1e-7)
+    st1 = manager_state(m)
+    cx.prove("after/manager_restored", st1[0] == st0[0] == [0] and st1[2] == st0[2] == [])
